@@ -3,12 +3,13 @@
 
 def _nontrivial(op, out):
     # a join query that returned at least one row
-    return out.startswith("rows ") and not out.startswith("rows 0")
+    # … or a plan dump (`jf`) with at least one join node
+    return (out.startswith("rows ") and not out.startswith("rows 0")) or out.startswith("flags ")
 
 
 PROP = dict(
     lean_modules=["Octo.Props.C02", "Octo.Props.C02Nodes"],
-    required_theorems=["Octo.C02.C02_full", "Octo.C02.join_sql", "Octo.C02.join_sql_mode", "Octo.C02.noRetractions_sound",
+    required_theorems=["Octo.C02.C02_full", "Octo.C02.join_sql", "Octo.C02.join_sql_mode", "Octo.C02.noRetractions_sound", "Octo.C02.planner_flag_exact",
                        "Octo.C02.old_noRetractions_flag_refuted", "Octo.C02.lookupJoin_sql", "Octo.C02.planner_is_sql",
                        "Octo.C02.optimizer_preserves", "Octo.C02.pushIntoJoinKey_sound", "Octo.C02.execution_is_relational",
                        "Octo.C02.sink_consolidates", "Octo.C02.schedule_independent", "Octo.C02.optimizer_irrelevant",
@@ -21,7 +22,9 @@ PROP = dict(
          "duplicate rows, small key domains), queries t JOIN u, (t JOIN u) JOIN v, t JOIN (u JOIN v) with every mix of JOIN / LOOKUP JOIN / "
          "LEFT / RIGHT / OUTER JOIN, ON = 0-3 key equalities (also `a + 1 = b`, flipped sides) with optional extra conjuncts "
          "(theta comparisons, IS NULL, one-sided, disjunctions, constants), sub-select inputs, WHERE over the joined row, optional "
-         "SELECT list, with and without --optimize, in all five output modes; non-trivial = the run returned at least one row",
+         "SELECT list, with and without --optimize, in all five output modes; every second query also through the REAL planner in-process (`jf`: NoRetractions flag of the root and of every "
+         "join node, typechecked and optimized, against Plan.noRetr); `late match` lines: an outer join below another join, csv/json, the partners "
+         "of the outer side's rows at the end of a 1200-1800 row file; non-trivial = the run returned at least one row / a plan dump",
     exhaustive=dict(quick=False, thorough=False),
     assumptions=["SQL fragment: FROM = tables, (SELECT * FROM t WHERE p) sub-selects and JOIN / LOOKUP JOIN / LEFT / RIGHT / OUTER JOIN trees; "
                  "WHERE; SELECT list of expressions; expressions of the modelled subset (columns, literals, + - *, comparisons, AND/OR/NOT, IS [NOT] NULL)",
